@@ -16,6 +16,8 @@ CONSTANTS
   ArbAlpha = {48, 49, 50, 124, 58, 97, 61}
   ArbLen = 4
   Modes = {"tok", "arb"}
+  LongReps = {}
+  LongLens = {}
   W1 = 8
   W2 = 8
 INVARIANT Totality
